@@ -241,7 +241,7 @@ func (p *IdP) RoundTrip(req *http.Request) (*http.Response, error) {
 	case "/logout":
 		endpoint = "logout"
 	}
-	sched.Point("idp:" + endpoint)
+	schedPoint("idp:" + endpoint)
 	var form url.Values
 	if req.Body != nil {
 		b, _ := io.ReadAll(req.Body)
@@ -269,12 +269,12 @@ func (p *IdP) RoundTrip(req *http.Request) (*http.Response, error) {
 			if resp != nil {
 				c.Status = resp.StatusCode
 			}
-			sched.Observe(fmt.Sprintf("idp-fault:%s", f.Kind))
+			schedObserve(fmt.Sprintf("idp-fault:%s", f.Kind))
 			return resp, err
 		}
 	}
 	resp := healthy()
-	sched.Observe(fmt.Sprintf("idp:%s:%d:%s", endpoint, resp.StatusCode, c.Note))
+	schedObserve(fmt.Sprintf("idp:%s:%d:%s", endpoint, resp.StatusCode, c.Note))
 	return resp, nil
 }
 
